@@ -152,6 +152,8 @@ class CollapseStream {
         block_->SetValidSize(copy_from_ + current_.TotalSize() - block_base);
         ++block_;
         StartBlock();
+        // End of stream: current_ is one record past the end of the last block.
+        if (!block_) return *this;
       }
 
       // Mark highest order n-grams for later pruning
